@@ -32,12 +32,9 @@ impl Matcher {
             .map(|i| haystack[i].char_class(&self.config))
             .unwrap_or(self.config.initial_char_class);
         let matched = matrix.setup::<INDICES, _>(needle, prev_class, &self.config, start as u32);
-        // this only happened with unicode haystacks, for ASCII the prefilter handles all rejects
+        // the prefilter handles most rejects, the rest (unicode haystacks, needles that were
+        // not normalized by the caller) is rejected here
         if !matched {
-            assert!(
-                !N::ASCII || !H::ASCII,
-                "should have been caught by prefilter"
-            );
             return None;
         }
 
